@@ -21,11 +21,11 @@ CHECKS = {
          "Trusted: the jsonref recogniser (cross-checked against encoding/json.Valid on every explored input), the abstract state key (mode, nextMode, literal index, container stack shape, number threshold flags), nesting bound D.",
          "DESIGN.md §2.1, §3 C01", "bytemc"),
  "C02": (EX, "bounded-exhaustive enumeration of number literals / string escape sequences / small trees through six front-end paths against a big.Rat + encoding/json reference",
-         "Every literal of the number family (sign x integer digit patterns of length 1..21 incl. the int64/uint64 boundaries x fraction with 0..21 leading zeros x exponent forms), every string of <=2 (quick) / <=3 (thorough) escape items (all 65536 single \\uXXXX escapes, surrogate pairs, raw invalid bytes) as value and key, and every tree up to 5 nodes is parsed by oj.Parse, 1-byte ParseReader, oj.Tokenize, gen.Parser (both) and sen.Parse and compared with the reference value. The space is a matrix of code paths (threshold digit counts, escape cells), filled completely up to the bound.",
+         "Every literal of the number family (sign x integer digit patterns of length 1..21 incl. the int64/uint64 boundaries x fraction with 0..21 leading zeros x exponent forms), every string of <=2 (quick) / <=3 (thorough) escape items (all 65536 single \\uXXXX escapes, surrogate pairs, raw invalid bytes) as value and key, and every tree up to 5 nodes is parsed by oj.Parse, 1-byte ParseReader, oj.Tokenize, gen.Parser (both) and sen.Parse and compared with the reference value. The space is a matrix of code paths (threshold digit counts, escape cells), filled completely up to the bound. A string-pair family (two strings per document in five placements, the second over every two-item sequence) checks that nothing one string leaves behind in a front-end shows in the next.",
          "Trusted: strconv.ParseFloat, math/big, encoding/json (cross-checked); valref decoder for non-UTF-8 inputs. Lone surrogates and raw invalid bytes accept several readings.",
          "DESIGN.md §3 C02", "core"),
  "C04": (EX, "bounded-exhaustive enumeration of value trees x writer entry points x option products x WriteLimits against encoding/json + an omit accept-set reference",
-         "Every tree up to the node bound over a leaf alphabet with one representative per string/number class (simple and gen form), deep single-child chains and the aligned-table family is written by every JSON writer entry point under the full product of boolean options (+ Width/MaxDepth/Align for pretty) and every WriteLimit; output must be valid JSON, decode to the tree minus exactly the omitted members, be byte-identical when streamed, and sorted/deterministic under Sort.",
+         "Every tree up to the node bound over a leaf alphabet with one representative per string/number class (simple and gen form), deep single-child chains and the aligned-table family is written by every JSON writer entry point under the full product of boolean options (+ Width/MaxDepth/Align for pretty) and every WriteLimit; output must be valid JSON, decode to the tree minus exactly the omitted members, be byte-identical when streamed, and sorted/deterministic under Sort. Further families: every string of <=2/3 bytes over nine byte classes as value and key; deep nestings with siblings at every depth x indent around the fixed indentation tables (Sort, Tab).",
          "Trusted: encoding/json as JSON oracle; OmitEmpty read as an accept-set (DESIGN §2.5); map orders repeated, not enumerated.",
          "DESIGN.md §3 C04", "core"),
  "C10": (EX, "bounded-exhaustive enumeration of strings over SEN byte classes + reserved family x 4 contexts x 8 writers x options, round trip through sen.Parse",
@@ -49,7 +49,7 @@ CHECKS = {
          "Trusted: ojg's own Get/Match on both sides (differential, no reference evaluator); smaller-witness subsumption for attribution.",
          "DESIGN.md §3 C14", "core"),
  "C15": (EX, "bounded-exhaustive enumeration of reflect.StructOf types x values x option products x encoders against a reference encoder and encoding/json; BFS over plan-cache first-use orders",
-         "Every struct type of <=2 (quick) / <=3 thinned (thorough) fields over 22 field kinds x 6 tag classes x values x the option product is encoded by all encoder entry points; all outputs must denote one tree, equal to the reference encoder (option documentation) and to encoding/json under GoOptions; the cache-history leg explores every first-use order of (type, OmitEmpty, package) from empty caches.",
+         "Every struct type of <=2 (quick) / <=3 thinned (thorough) fields over 22 field kinds x 6 tag classes x values x the option product is encoded by all encoder entry points; all outputs must denote one tree, equal to the reference encoder (option documentation) and to encoding/json under GoOptions; the cache-history leg explores every first-use order of (type, OmitEmpty, package) from empty caches. Every one-field type is also written through a pointer to a pointer and must give the tree written for the pointer.",
          "Trusted: encref (cross-checked against encoding/json on every case); readings weakened where options.go is silent (see checks/c15/TRIAGE.md).",
          "DESIGN.md §3 C15", "core"),
  "C16": (MC, "explicit-state BFS over recomposer registry states (orders of target types) with each step compared against a fresh recomposer; bounded-exhaustive round trips over StructOf and named types",
@@ -61,7 +61,7 @@ CHECKS = {
          "Trusted: pathref + scriptref; the harness's own ordered document model; failing pairs only reported when each target alone passes.",
          "DESIGN.md §3 C17", "core"),
  "C18": (EX, "bounded-exhaustive enumeration of trees x conversions, plus every (copy operation, node position, mutation) aliasing experiment",
-         "Every tree up to the node bound over 30 leaf kinds through Generify/Simplify, GenAlter/Alter, Dup, Decompose, writer equality of gen and simple forms, gen.Parser vs Generify(oj.Parse); for every copying operation every node of copy and original is mutated in five ways and the other side compared with its snapshot.",
+         "Every tree up to the node bound over 30 leaf kinds through Generify/Simplify, GenAlter/Alter, Dup, Decompose, writer equality of gen and simple forms, gen.Parser vs Generify(oj.Parse); for every copying operation every node of copy and original is mutated in five ways and the other side compared with its snapshot. The pretty writers are compared on gen and simple form for every width within 8 columns of the flat width, MaxDepth 1-3, with and without Color; gen.Parser is also read through one-byte reads.",
          "Trusted: kind-exact tree codec; in-place variants only required to preserve the value.",
          "DESIGN.md §3 C18", "core"),
  "C19": (EX, "bounded-exhaustive enumeration of base trees x single/two-point perturbations x ignore-path sets against a reference diff",
@@ -69,7 +69,7 @@ CHECKS = {
          "Trusted: diffref; int-vs-float of the same value and instants <2ms apart are open; array tail reading of DESIGN §2.5.",
          "DESIGN.md §3 C19", "core"),
  "C20": (EX, "bounded-exhaustive enumeration of plans (function x arity x argument atoms, nesting depth 1/2, state-changing sequences) x 12 roots against an outcome-set reference",
-         "Every function of asm.FnDocs() (read at run time) x arity 0..4 x argument atoms (+ depth-2 templates in thorough) on 12 roots: Execute never panics, two executions agree, the result is in the reference's outcome set for 37 modelled functions, String()/Simplify() rebuild an equivalent plan, and $.src is untouched unless a documented mutator targets it.",
+         "Every function of asm.FnDocs() (read at run time) x arity 0..4 x argument atoms (+ depth-2 templates in thorough) on 12 roots: Execute never panics, two executions agree, the result is in the reference's outcome set for 37 modelled functions, String()/Simplify() rebuild an equivalent plan, and $.src is untouched unless a documented mutator targets it. Further legs: item independence of each, bodies evaluated with @ bound to a value that is not the root (against the reference), and functions documented to return a copy sharing no storage with their argument.",
          "Trusted: asmref (doc.go is the specification; ambiguous wording yields several acceptable outcomes); masked 'runtime error:' results accepted.",
          "DESIGN.md §3 C20", "core"),
 
@@ -78,7 +78,7 @@ CHECKS = {
          "Trusted: abstract key and snapshot masking (scratch fields), byte-class partition, nesting and chunk-length bounds. SEN-only syntax is a known broken area (wildcard findings); SEN on strict JSON input and the SEN token list of leg C remain sharp.",
          "DESIGN.md §2.2, §3 C03", "bytemc"),
  "C05": (EX, "bounded-exhaustive enumeration of path expressions x documents against an independent reference evaluator (pathref), with earliest-fragment localisation",
-         "Every sequence of <=2 (quick) / <=3 (thorough) fragments over an alphabet that puts every index / slice bound in every sign and magnitude relation to the array lengths of the corpus (12 indexes, 392 start x end x step slices, unions, wildcard, descent, 5 filters decided by the scriptref reference) is evaluated by Expr.Get on every document of the corpus and compared with pathref (sequence where order is defined, multiset otherwise); position independence Get(x.f.c) = union of Get(c) over Get(x.f) is checked on the implementation itself.",
+         "Every sequence of <=2 (quick) / <=3 (thorough) fragments over an alphabet that puts every index / slice bound in every sign and magnitude relation to the array lengths of the corpus (12 indexes, 392 start x end x step slices, unions, wildcard, descent, 5 filters decided by the scriptref reference) is evaluated by Expr.Get on every document of the corpus and compared with pathref (sequence where order is defined, multiset otherwise); position independence Get(x.f.c) = union of Get(c) over Get(x.f) is checked on the implementation itself. A path ending in a bare descent must return, as a multiset, every node below the start nodes exactly once.",
          "Trusted: pathref + scriptref; open readings enumerated as pathref.Variants; trailing bare descent only no-panic/determinism; map orders repeated.",
          "DESIGN.md §3 C05", "core"),
  "C06": (MC, "explicit-state BFS over all six byte machines (256 bytes per state, reader faults injected at every chunk boundary) + bounded-exhaustive token-sequence / plan / tree enumeration for the recursive parsers",
@@ -90,7 +90,7 @@ CHECKS = {
          "Trusted: the call alphabets; exported configuration fields count as arguments; documented reused buffers (MustJSON, MustSEN, sen.Bytes, pretty Encode) and Reuse maps are exempt; sync.Pool is emptied by two GC cycles.",
          "DESIGN.md §3 C07", "core"),
  "C08": (MC, "stateless schedule enumeration (DFS, iterative preemption bounding) of the real code under a cooperative scheduler hooked into sync.Pool / sync.Mutex via a build overlay; separate free-running -race pass",
-         "For every harness (2 threads x 1-2 calls, 3 threads x 1 call; calls drawn from 7 groups forced to collide on one pool, plan cache or shared jp expression) all schedules with at most P preemptions are executed; scheduling points are Pool.Get/Put, Mutex.Lock/Unlock and the boundary after each call. Every call must return what it returns alone, every returned buffer must still hold its text when the caller looks again after other threads ran, shared expressions / recomposers must be bit-identical afterwards, no deadlock. Data races between scheduling points are left to the race-detector pass over the same call bodies (labelled as such in the evidence).",
+         "For every harness (2 threads x 1-2 calls, 3 threads x 1 call; calls drawn from 7 groups forced to collide on one pool, plan cache or shared jp expression) all schedules with at most P preemptions are executed; scheduling points are Pool.Get/Put, Mutex.Lock/Unlock and the boundary after each call. Every call must return what it returns alone, every returned buffer must still hold its text when the caller looks again after other threads ran, shared expressions / recomposers must be bit-identical afterwards, no deadlock. Data races between scheduling points are left to the race-detector pass over the same call bodies (labelled as such in the evidence). Shared objects are also snapshotted as constructed and must not change when a call is made for the first time.",
          "Trusted: sync.Pool modelled as LIFO+New; atomicity between scheduling points (complemented by -race pass); harness alphabets; -race pass built with checkptr disabled because ojg's unsafe field arithmetic trips it.",
          "DESIGN.md §3 C08", "sched"),
  "C09": (MC, "explicit-state BFS for the state set, then exhaustive whitespace-insertion x offending-byte x chunking enumeration per state",
